@@ -47,8 +47,8 @@ def _base(name, tier):
             continue
         seen.add(k)
         out.append(f)
-    step = max(1, len(out) // (14 if tier == "quick" else 30))
-    return out[::step][: (14 if tier == "quick" else 30)]
+    step = max(1, len(out) // (14 if tier == "quick" else 20))
+    return out[::step][: (14 if tier == "quick" else 20)]
 
 
 SHAPES = ["F", "F&G", "F|G", "(F&G)&H", "Conj3", "Disj3", "Conj(Disj,H)", "Conj(Disj,Disj)", "Conj(Disj,F,G)", "Disj(Conj,H)", "NegConj3", "NegNeg"]
@@ -228,7 +228,7 @@ def _triples(n, tier):
 
 def _trees(name, tier):
     ts = common.trees_of(name, "quick")
-    cap = 24 if tier == "quick" else 60
+    cap = 24 if tier == "quick" else 40
     step = max(1, len(ts) // cap)
     return ts[::step][:cap]
 
